@@ -104,9 +104,9 @@ def _case(arg):
     th_raw = wl.raw_theory()
     ini_op_raw = wl.raw_operator(init=(mu0, 4), mugrid=ini_mugrid, xgrid=xg.tolist(), degree=1)
     fin_op_raw = wl.raw_operator(init=(mu1_fin, nf_init), mugrid=fin_mugrid, xgrid=xg.tolist(), degree=1)
-    ini_eg = [(m * m, nf) for m, nf in ini_mugrid]
-    fin_eg = [(m * m, nf) for m, nf in fin_mugrid]
-    J = (mu1 * mu1, nf1)
+    ini_eg = [(m**2, nf) for m, nf in ini_mugrid]  # as OperatorCard.evolgrid does
+    fin_eg = [(m**2, nf) for m, nf in fin_mugrid]
+    J = (mu1**2, nf1)
     ini_t = synth_f.random_tensors(rng, ini_eg, nx, with_err=errpat in ("both", "ini-only"), err_scale=1e-2)
     fin_t = synth_f.random_tensors(rng, fin_eg, nx, with_err=errpat in ("both", "fin-only"), err_scale=1e-2)
     # signed errors, so that the absolute values of the rule are observable
@@ -280,8 +280,18 @@ def _case(arg):
     return out
 
 
+def _safe(a):
+    try:
+        return _case(a)
+    except Exception as e:  # a harness failure is never a verdict
+        import traceback
+
+        return dict(key=("harness-error", a[1]), nontrivial=False, hits={}, viol=[], ok=0,
+                    inc=[f"harness error {type(e).__name__}: {e} {traceback.format_exc()[-300:]}"])
+
+
 def _chunk(args):
-    return [_case(a) for a in args]
+    return [_safe(a) for a in args]
 
 
 def _merge(ck, rec):
